@@ -15,6 +15,7 @@ package c15
 // validation guarantees, and this stream ties the model's branches to the code's.
 
 import (
+	"bytes"
 	"encoding/binary"
 	"fmt"
 	"os"
@@ -361,7 +362,9 @@ func (e *env) caseDamage(idx int) {
 	c.NonTrivial()
 	e.probeTable(t, rd)
 	// damaged variants
-	for j, d := range e.damages(good, p1, p2, idx) {
+	dmgs := e.damages(good, p1, p2, idx)
+	defer func() { e.aftermath(t, rd, good, 2+len(dmgs)) }()
+	for j, d := range dmgs {
 		fno := 2 + j
 		c.Branch("damage-" + strings.TrimRight(d.name, "0123456789"))
 		rd, sane, issued := e.rawOpen(fno, d.b)
@@ -395,6 +398,119 @@ func (e *env) caseDamage(idx int) {
 			continue
 		}
 		c.Op(fmt.Sprintf("iter %d", fno), showSeq(got))
+	}
+}
+
+// aftermath (inside the statement again): after all the refused and accepted opens of the case,
+// one more open that fails inside initialize(), then two healthy tables — the control's bytes
+// under a new number and a different freshly built table — are opened side by side through the
+// same cache. Each reader, and the control reader opened at the start of the case, must answer
+// with its own table's bytes also AFTER the other tables were opened: nothing a failed or a later
+// open leaves behind in objects shared between readers (decoder pools, the cache) may leak into
+// another reader. The model opens the same byte strings (raw / kmap / dopen) and answers the same
+// lookups, so a reader that starts using another file's offsets shows up on both sides.
+func (e *env) aftermath(ctl *built, ctlRd table.Reader, good []byte, fno0 int) {
+	c, r := e.c, e.r
+	// 1. an open refused by initialize()
+	bad := append([]byte(nil), good...)
+	switch r.Intn(3) {
+	case 0:
+		bad = bad[:len(bad)-1-r.Intn(8)]
+		c.Branch("aftermath-refused-cut")
+	case 1:
+		bad[len(bad)-1-r.Intn(8)] ^= 0xa5
+		c.Branch("aftermath-refused-magic")
+	default:
+		putU32(bad, len(bad)-footerLen+4, uint32(len(bad)+1+r.Intn(50)))
+		c.Branch("aftermath-refused-footer")
+	}
+	if rd, _, _ := e.rawOpen(fno0, bad); rd != nil {
+		c.Branch("aftermath-damaged-but-accepted")
+	}
+	// 2. healthy table A: the control's bytes under a new number
+	ta := &built{fno: fno0 + 1, entries: ctl.entries, min: ctl.min, max: ctl.max, size: ctl.size, closed: true}
+	rdA, saneA, issued := e.rawOpen(ta.fno, good)
+	if !issued {
+		return
+	}
+	if rdA == nil || !saneA {
+		c.Fail("open-fails", "a file written by the builder is rejected by the reader after a refused open")
+		return
+	}
+	e.reprobe(ta, rdA, "")
+	// 3. healthy table B: different keys, different value sizes
+	tb := &built{fno: fno0 + 2}
+	_, keys := e.keySet()
+	if len(keys) > 30 {
+		at := r.Intn(len(keys) - 29)
+		keys = keys[at : at+30]
+	}
+	b, err := table.NewStoreBuilder(table.FileNumber(tb.fno), e.path(tb.fno))
+	if err != nil {
+		c.Fail("harness-new-builder", err.Error())
+		return
+	}
+	for _, k := range keys {
+		v := make([]byte, 1+r.Intn(40))
+		r.Read(v)
+		if err := b.Add(k, v); err != nil {
+			c.Fail("harness-add", err.Error())
+			return
+		}
+		tb.entries = append(tb.entries, kv{k, v})
+	}
+	if err := b.Close(); err != nil {
+		c.Fail("close-error", "Close of a well-formed small table failed")
+		return
+	}
+	bytesB, rerr := os.ReadFile(e.path(tb.fno))
+	if rerr != nil {
+		c.Fail("harness-read-file", "cannot read the table back")
+		return
+	}
+	rdB, saneB, issued := e.rawOpen(tb.fno, bytesB)
+	if !issued {
+		return
+	}
+	if rdB == nil || !saneB {
+		c.Fail("open-fails", "a file written by the builder is rejected by the reader after a refused open")
+		return
+	}
+	c.Branch("aftermath-two-healthy-tables-open")
+	e.reprobe(tb, rdB, "")
+	after := fmt.Sprintf("a refused open and the opening of tables %d and %d", ta.fno, tb.fno)
+	e.reprobe(ta, rdA, after)
+	e.reprobe(ctl, ctlRd, after)
+	e.reprobe(tb, rdB, after)
+}
+
+// reprobe reads every kept key and the whole iteration of a healthy table again.
+func (e *env) reprobe(t *built, rd table.Reader, after string) {
+	c := e.c
+	key, ctx := "present-key-wrong-bytes", ""
+	if after != "" {
+		key, ctx = "reader-disturbed-by-later-open", " (the same reader answered correctly before; this is after "+after+")"
+	}
+	for _, en := range t.entries {
+		out, v := e.get(rd, t.fno, en.k)
+		if !strings.HasPrefix(out, "ok ") || !bytes.Equal(v, en.v) {
+			c.Fail(key, fmt.Sprintf("table %d: Get(%d) = %s, added %s%s", t.fno, en.k, out, showVal(en.v), ctx))
+			break
+		}
+	}
+	got, p := drain(rd.Iterator(), len(t.entries)+5)
+	if p {
+		c.Op(fmt.Sprintf("iter %d", t.fno), "panic")
+		c.Fail(key, fmt.Sprintf("table %d: the iterator panics%s", t.fno, ctx))
+		return
+	}
+	c.Op(fmt.Sprintf("iter %d", t.fno), showSeq(got))
+	same := len(got) == len(t.entries)
+	for i := 0; same && i < len(got); i++ {
+		same = got[i].k == t.entries[i].k && bytes.Equal(got[i].v, t.entries[i].v)
+	}
+	if !same {
+		c.Fail(key, fmt.Sprintf("table %d: the iteration is %s, kept entries are %s%s", t.fno, showSeq(got), showSeq(t.entries), ctx))
 	}
 }
 
